@@ -112,6 +112,9 @@ type Options struct {
 	// deterministic (keep running, else lowest thread name) and every other thread choice costs one
 	// deviation, including switches at blocking points. Data choices stay free.
 	Delay bool
+	// Invariant, if set, is evaluated at every decision point (nothing else runs then, so it may read
+	// private state directly); it reports through Fail.
+	Invariant func()
 	// ChooseRand: owned random draws that steer control flow become explorer choices when the
 	// harness installs a handler; nil => PRF.
 	RandInt func(n int, tag string) int
@@ -146,6 +149,7 @@ type Sched struct {
 	outcome  []string
 	gen      uint64
 	Locals   map[string]any // harness scratch, per execution
+	inInv    bool
 }
 
 var cur *Sched
@@ -454,6 +458,10 @@ func Point(o *Obj, write bool, kind string, en func() bool) bool {
 		}
 		return false
 	}
+	if s.inInv {
+		// an invariant callback is reading state through instrumented accessors: no yield, no event
+		return true
+	}
 	pc := sitePC()
 	yield := s.touch(t, o, pc) || NoSiteReduction
 	if !yield && en != nil && !en() {
@@ -598,6 +606,11 @@ func (s *Sched) schedule(t *thread) {
 }
 
 func (s *Sched) decidePoint(n, altCost int, data bool) int {
+	if s.opt.Invariant != nil && !s.inInv {
+		s.inInv = true
+		s.opt.Invariant()
+		s.inInv = false
+	}
 	rec := PointRec{N: n, AltCost: altCost, Before: s.cost, Data: data}
 	rec.Key = s.StateKey()
 	s.res.Points = append(s.res.Points, rec)
